@@ -1080,3 +1080,149 @@ def expand_env(tokens: Iterable[str], envs: Dict[str, Tuple[FrozenSet[str], Froz
 
 def named(tokens: Iterable[str]) -> FrozenSet[str]:
     return frozenset(t for t in tokens if t.startswith(('A:', 'EACH:', 'S:', 'ENV:')))
+
+
+# --------------------------------------------------------------------------------------
+# deterministic evaluation of small method bodies under a valuation of their tests, path conditions, helper inlining
+# (C35 R10-R14: renderer passes and the free-variable properties)
+# --------------------------------------------------------------------------------------
+
+
+def split_compare(e: ast.Compare) -> List[ast.Compare]:
+    """`a <= b < c` -> [`a <= b`, `b < c`]."""
+    out = []
+    left = e.left
+    for op, c in zip(e.ops, e.comparators):
+        out.append(ast.copy_location(ast.Compare(left=left, ops=[op], comparators=[c]), e))
+        left = c
+    return out
+
+
+def eval_bool(e: ast.AST, atom) -> bool:
+    """Evaluate a test; `atom(expr) -> bool` decides the leaves (and raises AnalysisError for a leaf it does not know)."""
+    if isinstance(e, ast.BoolOp):
+        if isinstance(e.op, ast.And):
+            return all(eval_bool(v, atom) for v in e.values)
+        return any(eval_bool(v, atom) for v in e.values)
+    if isinstance(e, ast.UnaryOp) and isinstance(e.op, ast.Not):
+        return not eval_bool(e.operand, atom)
+    if isinstance(e, ast.Constant):
+        return bool(e.value)
+    if isinstance(e, ast.Compare) and len(e.ops) > 1:
+        return all(eval_bool(c, atom) for c in split_compare(e))
+    return atom(e)
+
+
+def literals(test: ast.AST, pol: bool) -> List[Tuple[ast.AST, bool]]:
+    """The literals a test with truth value `pol` *implies* (conjunctive decomposition):  not (a or b) is True -> [(a, F), (b, F)].
+    A part that is a disjunction under this polarity is returned whole as one opaque literal."""
+    if isinstance(test, ast.UnaryOp) and isinstance(test.op, ast.Not):
+        return literals(test.operand, not pol)
+    if isinstance(test, ast.BoolOp):
+        conj = isinstance(test.op, ast.And) == pol
+        if conj:
+            out: List[Tuple[ast.AST, bool]] = []
+            for v in test.values:
+                out += literals(v, pol)
+            return out
+        return [(test, pol)]
+    if isinstance(test, ast.Compare) and len(test.ops) > 1 and pol:
+        out = []
+        for c in split_compare(test):
+            out += literals(c, True)
+        return out
+    return [(test, pol)]
+
+
+def _always_exits(stmts: Sequence[ast.stmt]) -> bool:
+    for st in stmts:
+        if isinstance(st, (ast.Return, ast.Raise, ast.Continue, ast.Break)):
+            return True
+        if isinstance(st, ast.If) and st.orelse and _always_exits(st.body) and _always_exits(st.orelse):
+            return True
+    return False
+
+
+def path_conditions(fn: ast.AST) -> Dict[int, List[Tuple[ast.AST, bool]]]:
+    """id(statement) -> the (test, truth value) pairs that hold whenever the statement executes: the tests of the enclosing
+    `if`s and the negated tests of preceding sibling `if`s whose body always leaves the block (return / raise / continue / break).
+    Loop bodies inherit the conditions of the loop statement (sound as a *necessary* condition only for tests on values the loop
+    does not change; callers use it for branch structure inside one loop iteration).  try/with/match are not entered."""
+    out: Dict[int, List[Tuple[ast.AST, bool]]] = {}
+
+    def block(stmts: Sequence[ast.stmt], cond: List[Tuple[ast.AST, bool]], fresh: bool) -> None:
+        cur = list(cond)
+        for st in stmts:
+            out[id(st)] = list(cur)
+            if isinstance(st, ast.If):
+                block(st.body, cur + [(st.test, True)], False)
+                block(st.orelse, cur + [(st.test, False)], False)
+                if _always_exits(st.body) and not st.orelse:
+                    cur = cur + [(st.test, False)]
+                elif st.orelse and _always_exits(st.orelse) and not _always_exits(st.body):
+                    cur = cur + [(st.test, True)]
+            elif isinstance(st, (ast.While, ast.For)):
+                # conditions established before the loop are not carried into later iterations
+                block(st.body, [], True)
+                block(st.orelse, cur, False)
+            elif isinstance(st, (ast.With,)):
+                block(st.body, cur, False)
+
+    block(getattr(fn, 'body', []), [], True)
+    return out
+
+
+def exec_block(stmts: Sequence[ast.stmt], atom, visit) -> Optional[Tuple[str, ast.stmt]]:
+    """Run a loop-free statement list under the test oracle `atom`; `visit(stmt)` is called for every simple statement executed
+    (including the terminating return / raise / continue / break, which is also returned as (kind, stmt))."""
+    for st in stmts:
+        if isinstance(st, ast.Expr) and isinstance(st.value, ast.Constant):
+            continue
+        if isinstance(st, ast.If):
+            r = exec_block(st.body if eval_bool(st.test, atom) else st.orelse, atom, visit)
+            if r is not None:
+                return r
+        elif isinstance(st, (ast.Return, ast.Raise, ast.Continue, ast.Break)):
+            visit(st)
+            return ({ast.Return: 'return', ast.Raise: 'raise', ast.Continue: 'continue', ast.Break: 'break'}[type(st)], st)
+        elif isinstance(st, (ast.For, ast.While, ast.Try, ast.With, ast.AsyncFor, ast.AsyncWith)) or (hasattr(ast, 'Match') and isinstance(st, ast.Match)):
+            raise AnalysisError(f'unrecognised compound statement {type(st).__name__} at line {st.lineno}')
+        else:
+            visit(st)
+    return None
+
+
+def inline_all(m: pf.Module, cls_name: str, target: str, max_depth: int = 3) -> Tuple[pf.Module, List[Tuple[str, int]], List[Tuple[str, int, str]]]:
+    """A copy of module m in which method `target` of top-level class `cls_name` has its statement-level calls to same-class
+    helper methods (`self.h(...)`, including @staticmethod helpers called through self) and to module-level helper functions
+    inlined (engines/inline.py).  Returns (module copy, inlined [(helper, line)], skipped [(helper, line, why)])."""
+    import copy
+    from . import inline as il
+    tree = copy.deepcopy(m.tree)
+    m2 = pf.Module(m.rel, m.path, m.src, tree)
+    cls = m2.cls(cls_name)
+    fn = None
+    helpers: Dict[str, pf.FuncDef] = {}
+    for f in cls.body:
+        if not isinstance(f, (ast.FunctionDef, ast.AsyncFunctionDef)):
+            continue
+        if f.name == target:
+            fn = f
+            continue
+        h = copy.deepcopy(f)
+        decs = pf.decorator_names(h)
+        if decs == ['staticmethod']:
+            # called as self.h(args): bind a dummy receiver so that the argument positions line up
+            h.decorator_list = []
+            h.args.args.insert(0, ast.arg(arg='self__static'))
+        helpers[h.name] = h
+    if fn is None:
+        raise AnalysisError(f'anchor vanished: {m.rel}::{cls_name}.{target}')
+    recv = fn.args.args[0].arg if fn.args.args else 'self'
+    i1 = il.Inliner(helpers, recv, max_depth)
+    i1.run(fn)
+    mod_helpers = {f.name: copy.deepcopy(f) for f in tree.body if isinstance(f, (ast.FunctionDef, ast.AsyncFunctionDef))}
+    i2 = il.Inliner(mod_helpers, None, max_depth)
+    i2.run(fn)
+    ast.fix_missing_locations(tree)
+    return m2, i1.inlined + i2.inlined, i1.skipped + i2.skipped
